@@ -146,6 +146,108 @@ def cli_shard(shard, nshards, payload):
     return res.to_dict()
 
 
+ASAN_BIN = os.path.join(core.TARGET, "asan", "x86_64-unknown-linux-gnu", "debug", "verif-probe")
+
+
+def build_asan():
+    env = core._cargo_env()
+    env["RUSTFLAGS"] = "-Zsanitizer=address -Cforce-frame-pointers=yes --cfg ironplc_verif"
+    env["CARGO_TARGET_DIR"] = os.path.join(core.TARGET, "asan")
+    import subprocess
+    p = subprocess.run(["cargo", "+nightly", "build", "--offline", "-q", "--target", "x86_64-unknown-linux-gnu"],
+                       cwd=os.path.join(core.VERIF, "probe"), env=env, stdout=subprocess.PIPE, stderr=subprocess.STDOUT, text=True)
+    return p.returncode == 0 and os.path.exists(ASAN_BIN), p.stdout[-2000:]
+
+
+def asan_shard(shard_i, nshards, payload):
+    """The token-soup / mutation workload again under an AddressSanitizer build of the probe: a report aborts the
+    process (halt_on_error), which the supervisor attributes to the case that was running."""
+    res = core.Result()
+    env = dict(os.environ, ASAN_OPTIONS="halt_on_error=1:abort_on_error=1:detect_leaks=0")
+    probe = core.Probe(binary=ASAN_BIN, env=env)
+    try:
+        for i in range(shard_i, payload["n_asan"], nshards):
+            rng = core.rng_for(payload["seed"], "c04asan", i)
+            case = gen_case(rng, 1 + i % 4)
+            if len(case["text"].encode("utf-8", "replace")) > 65536:
+                continue
+            obs = probe.run({"op": "pipeline", "text": case["text"], "budget": STEP_BUDGET}, timeout=120.0)
+            res.evaluations += 1
+            res.count("asan")
+            case["gen"] = "asan:" + case["gen"]
+            if "died" in obs:
+                res.violation("sanitizer", "asan:process-died:rc=%s" % obs["died"].get("returncode"),
+                              "AddressSanitizer build of the probe died on this case", case)
+            else:
+                judge(res, obs, case, None)
+                if "panic" not in obs and not obs.get("watchdog"):
+                    res.distinct.add(core.key_of("asan", case["text"]))
+    finally:
+        probe.close()
+    return res.to_dict()
+
+
+def miri_gate(seed, n_cases, res):
+    """A small corpus under `cargo +nightly miri run` (UB / invalid pointer use in dependencies' unsafe code reached
+    through ironplc), sharded over processes; an 'Undefined Behavior' report or an abnormal exit is a violation."""
+    import json as _json
+    import subprocess
+    rng = core.rng_for(seed, "c04miri")
+    cases = []
+    for name, text in hostile.fixtures():
+        cases.append({"gen": "miri:fixture:" + name, "text": text[:1200]})
+    while len(cases) < n_cases:
+        c = gen_case(rng, len(cases))
+        c["text"] = c["text"][:800]
+        c["gen"] = "miri:" + c["gen"]
+        cases.append(c)
+    cases = cases[:n_cases]
+    nshards = core.NCPU
+    workdir = core.worker_tmpdir("c04miri")
+    env = core._cargo_env()
+    env["MIRIFLAGS"] = "-Zmiri-disable-isolation"
+    env["CARGO_TARGET_DIR"] = os.path.join(core.TARGET, "miri")
+    procs = []
+    for s in range(nshards):
+        mine = cases[s::nshards]
+        path = os.path.join(workdir, "shard%d.jsonl" % s)
+        with open(path, "w") as f:
+            for j, c in enumerate(mine):
+                f.write(_json.dumps({"id": j, "op": "pipeline", "text": c["text"]}) + "\n")
+        if s == 0:
+            # build once (serialised by cargo's lock anyway)
+            subprocess.run(["cargo", "+nightly", "miri", "run", "--offline", "-q"], cwd=os.path.join(core.VERIF, "probe"),
+                           env=env, stdin=subprocess.DEVNULL, stdout=subprocess.DEVNULL, stderr=subprocess.DEVNULL)
+        procs.append((mine, subprocess.Popen(["cargo", "+nightly", "miri", "run", "--offline", "-q"],
+                                             cwd=os.path.join(core.VERIF, "probe"), env=env, stdin=open(path),
+                                             stdout=subprocess.PIPE, stderr=subprocess.PIPE, text=True)))
+    for mine, p in procs:
+        try:
+            out, err = p.communicate(timeout=3 * 3600)
+        except subprocess.TimeoutExpired:
+            p.kill()
+            res.inconclusive.append({"why": "miri watchdog", "case": {"n": len(mine)}})
+            continue
+        done = [l for l in out.splitlines() if l.startswith("{") and '"begin"' not in l]
+        res.evaluations += len(done)
+        res.counters["miri_cases"] = res.counters.get("miri_cases", 0) + len(done)
+        if "Undefined Behavior" in err or "error: unsupported operation" in err:
+            k = len(done)
+            res.violation("sanitizer", "miri:" + ("ub" if "Undefined Behavior" in err else "unsupported"),
+                          err[err.find("error"):][:600], mine[k] if k < len(mine) else {"gen": "miri", "text": ""})
+        elif p.returncode != 0 and len(done) < len(mine):
+            res.violation("sanitizer", "miri:exit=%s" % p.returncode, err[-600:], mine[len(done)])
+        else:
+            for c, l in zip(mine, done):
+                o = _json.loads(l)
+                if "panic" in o:
+                    judge(res, o, c, None)
+                else:
+                    res.distinct.add(core.key_of("miri", c["text"]))
+    import shutil
+    shutil.rmtree(workdir, ignore_errors=True)
+
+
 def run(tier, seed):
     core.build_probe()
     core.build_plc()
@@ -153,6 +255,18 @@ def run(tier, seed):
     n_cli = 600 if tier == "quick" else 20000
     parts = core.run_sharded(shard, {"n": n, "seed": seed})
     parts += core.run_sharded(cli_shard, {"n_cli": n_cli, "seed": seed})
+    sanitizers = {"asan": "not run (quick tier)", "miri": "not run (quick tier)"}
+    if tier == "thorough":
+        ok, log = build_asan()
+        if ok:
+            parts += core.run_sharded(asan_shard, {"n_asan": 200000, "seed": seed})
+            sanitizers["asan"] = "200000 cases under an AddressSanitizer build of the probe"
+        else:
+            sanitizers["asan"] = "ASan build failed: " + log[-300:]
+        mres = core.Result()
+        miri_gate(seed, 160, mres)
+        parts.append(mres.to_dict())
+        sanitizers["miri"] = "%d cases under cargo +nightly miri run" % mres.counters.get("miri_cases", 0)
     parts.append(witnesses().to_dict())
     res = core.Result.merge(parts)
     res.counters["max_steps"] = max([p.get("counters", {}).get("max_steps", 0) for p in parts if p and "counters" in p] or [0])
@@ -165,7 +279,8 @@ def run(tier, seed):
         "assumptions": ["step budget %d parser element matches, CPU budget %d ns per case" % (STEP_BUDGET, CPU_BUDGET_NS),
                         "probe profile: opt-level 1 with overflow checks and debug assertions on"],
         "min_evaluations": 1000,
-        "coverage": {"step_budget": STEP_BUDGET, "max_steps_observed": res.counters.get("max_steps", 0)},
+        "coverage": {"step_budget": STEP_BUDGET, "max_steps_observed": res.counters.get("max_steps", 0),
+                     "sanitizers": sanitizers},
     }
     return res, extra
 
